@@ -2,7 +2,10 @@
 
 package destination
 
-import "time"
+import (
+	"strings"
+	"time"
+)
 
 // VerifDestFieldsT carries every configuration field of a Destination, including the unexported ones,
 // for the C20 harnesses in packages imperatives and cfg (overlaid there via -hdir2 / extra_overlays).
@@ -26,5 +29,82 @@ func VerifDestFields(d *Destination) VerifDestFieldsT {
 		ConnBufSize: d.connBufSize, IoBufSize: d.ioBufSize, SpoolBufSize: d.SpoolBufSize,
 		SpoolMaxBytesPerFile: d.SpoolMaxBytesPerFile, SpoolSyncEvery: d.SpoolSyncEvery,
 		SpoolSyncPeriod: d.SpoolSyncPeriod, SpoolSleep: d.SpoolSleep, UnspoolSleep: d.UnspoolSleep,
+	}
+}
+
+// ---- the specification table (transcribed from docs/config.md "carbon destination" and
+// docs/tcp-admin-interface.md "addRoute ... <dest> <opts>"); shared by the imperatives and cfg harnesses.
+
+// VerifC20DestDefaults: a destination given only its address.
+func VerifC20DestDefaults(routeKey, addr, spoolDir string) VerifDestFieldsT {
+	w := VerifDestFieldsT{
+		PeriodFlush:          1000 * time.Millisecond,  // flush: int (ms), default 1000
+		PeriodReConn:         10000 * time.Millisecond, // reconn: int (ms), default 10k
+		Pickle:               false,
+		Spool:                false,
+		ConnBufSize:          30000,             // 30k
+		IoBufSize:            2000000,           // int (bytes), 2M
+		SpoolBufSize:         10000,             // 10k
+		SpoolMaxBytesPerFile: 200 * 1024 * 1024, // 200MiB
+		SpoolSyncEvery:       10000,             // 10k
+		SpoolSyncPeriod:      1000 * time.Millisecond, // int (ms), 1000
+		SpoolSleep:           500 * time.Microsecond,  // int (micros), 500
+		UnspoolSleep:         10 * time.Microsecond,   // int (micros), 10
+		SpoolDir:             spoolDir,
+		RouteName:            routeKey,
+	}
+	// addr is host:port, or host:port:instance for consistent hashing
+	parts := strings.Split(addr, ":")
+	if len(parts) == 3 {
+		w.Addr, w.Instance = parts[0]+":"+parts[1], parts[2]
+	} else {
+		w.Addr = addr
+	}
+	// "unique key per destination, based on routeName and destination addr/port combination"
+	w.Key = routeKey + "_" + strings.NewReplacer(".", "_", ":", "_", "/", "").Replace(addr)
+	return w
+}
+
+// VerifC20DestSet: the documented meaning of one option occurrence (s / n / b = its string, int, bool value).
+func VerifC20DestSet(w *VerifDestFieldsT, opt string, s string, n int, b bool) {
+	switch opt {
+	case "prefix":
+		w.Prefix = s
+	case "notPrefix":
+		w.NotPrefix = s
+	case "sub":
+		w.Sub = s
+	case "notSub":
+		w.NotSub = s
+	case "regex":
+		w.Regex = s
+	case "notRegex":
+		w.NotRegex = s
+	case "flush":
+		w.PeriodFlush = time.Duration(n) * time.Millisecond
+	case "reconn":
+		w.PeriodReConn = time.Duration(n) * time.Millisecond
+	case "pickle":
+		w.Pickle = b
+	case "spool":
+		w.Spool = b
+	case "connbuf":
+		w.ConnBufSize = n
+	case "iobuf":
+		w.IoBufSize = n
+	case "spoolbuf":
+		w.SpoolBufSize = n
+	case "spoolmaxbytesperfile":
+		w.SpoolMaxBytesPerFile = int64(n)
+	case "spoolsyncevery":
+		w.SpoolSyncEvery = int64(n)
+	case "spoolsyncperiod":
+		w.SpoolSyncPeriod = time.Duration(n) * time.Millisecond
+	case "spoolsleep":
+		w.SpoolSleep = time.Duration(n) * time.Microsecond
+	case "unspoolsleep":
+		w.UnspoolSleep = time.Duration(n) * time.Microsecond
+	default:
+		panic("unknown option " + opt)
 	}
 }
